@@ -306,6 +306,39 @@ def py_effect_rule(res, py):
                        'next field header from the wrong offset' % (tn, pstr(bad[0][0]['writer']) if bad else '', pstr(bad[0][0]['size']) if bad else ''))
 
 
+def c_unlink_rule(res, fx, rule='C-CACHED'):
+    """a field taken out of one MMessage is put into another (MMMoveField): it must not bring its old neighbours along"""
+    n = 0
+    for f in sorted((f for f in fx.funcs.values() if f.full and f.file.endswith('minimessage/MiniMessage.c')), key=lambda f: f.line):
+        links = {}
+        for a in f.walk():
+            if a['k'] != 'BinaryOperator' or a.get('op') != '=':
+                continue
+            l_ = A.strip_casts(a['ch'][0])
+            if l_['k'] != 'MemberExpr' or l_.get('n') not in ('prevField', 'nextField') or not l_['ch']:
+                continue
+            base = A.strip_casts(l_['ch'][0])
+            # neighbour write:  X->prevField->nextField = …   /   X->nextField->prevField = …
+            if base['k'] == 'MemberExpr' and base.get('n') in ('prevField', 'nextField') and base['ch'] and A.strip_casts(base['ch'][0])['k'] == 'DeclRefExpr':
+                links.setdefault(A.strip_casts(base['ch'][0]).get('d'), {'nb': [], 'own': {}})['nb'].append(a)
+            elif base['k'] == 'DeclRefExpr':
+                links.setdefault(base.get('d'), {'nb': [], 'own': {}})['own'].setdefault(l_['n'], []).append(a)
+        for d, info in sorted(links.items(), key=lambda kv: str(kv[0])):
+            if len(info['nb']) < 1 or not any(p_.get('d') == d for p_ in f.params):
+                continue
+            n += 1
+            freed = any(c.is_call() and (c.get('q') or '').split('::')[-1] in ('MFree', 'free', 'FreeMMessageField') and c.args() and A.strip_casts(c.args()[0]).get('d') == d for c in f.walk())
+            # chained `a = b = NULL` stores: the inner assignment is found by the walk as well
+            ok = freed or all(info['own'].get(fl) and P.must_follow(f, info['nb'][0], info['own'][fl])[0] for fl in ('prevField', 'nextField'))
+            name = [p_.get('n') for p_ in f.params if p_.get('d') == d][0]
+            res.ob(rule, f.where(info['nb'][0]), '%s: the unlinked field `%s` does not keep its old neighbours' % (f.q, name), ok, function=f.q, key='%s|%s|unlink:%s' % (rule, f.q, name),
+                   message='%s takes `%s` out of its list (it rewrites the neighbours\' links) but leaves %s->prevField / ->nextField pointing into the old list: MMMoveField() appends the field to '
+                           'another MMessage, which then flattens the moved field AND every field that followed it in the source — its bytes no longer agree with what the C++ Message produces for the '
+                           'same commands — and the two Messages free the same field records' % (f.q, name, name))
+    if n < 1:
+        raise AnalysisBroken('%s: the unlink routine of the mini field list was not found' % rule)
+
+
 def run(res, tier):
     fx = common.load_units(res, ['message/Message.cpp', 'iogateway/MessageIOGateway.cpp'] + F.C_UNITS, fn_regex='(' + C01.FN_RE + r')|(^(MM|UM|MG|UG|GetMMessage|FlattenMMessage|ImportMMessage|IsTypeCode|WriteData|ReadData|muscle::MessageIOGateway))', macros=True)
     res.functions_analysed = sum(1 for f in fx.funcs.values() if f.full)
@@ -585,6 +618,10 @@ def run(res, tier):
     res.ob('FRAME', 'lang/python3/message_transceiver_thread.py', 'Python transceiver packs "<2L" (FlattenedSize(), MUSCLE_MESSAGE_ENCODING_DEFAULT)', okp, function='Python:transceiver', key='FRAME|python',
            message='message_transceiver_thread.py no longer frames Messages as "<2L" of length and default encoding')
     cmini_consistency_rules(res, fx)
+    c_unlink_rule(res, fx)
+    # the header's encoding word has to describe the body it precedes (the rule lives with the zlib stream discipline in C03; here it is the header/body agreement of the frame)
+    from .C03 import codec_step_rule
+    codec_step_rule(res, fx, min_sites=1)
     res.explanation = ('Static cross-check of the four Message codecs shipped in the repository against each other and against the documented layout, as tables: constants from macro/enum/variable/Python-ast records; '
                        'per-type payload shapes from symbolic evaluation of the C++ array serialisers and of the C size function under each type-code constraint, from the C import table, and from the Python '
                        'size function, struct formats and array type codes; header word sources; byte-order discipline; the 8-byte stream frame. A change made consistently on both C++ sides still disagrees '
